@@ -350,6 +350,9 @@ func synthArgs(mt reflect.Type, skipRecv bool, ctx *synthCtx) ([]reflect.Value, 
 			if ctx.ForceAny != "" && cnt == 0 {
 				cnt = 1
 			}
+			if (k>>3)%16 == 5 && et.Kind() != reflect.Bool {
+				cnt = 33 + (k>>7)%300 // a long argument list (past any small fixed batch size)
+			}
 			if et.Kind() == reflect.Bool {
 				// tri-state setters: none / true / false
 				switch posMod(k, 3) {
